@@ -57,4 +57,18 @@ guards, and stores the result under the target key — i.e. it is `Mask.applyMas
 of (input, mask) only (`apply_mask_module_ignores_existing_target`). -/
 theorem apply_mask_module_plan_eq : apply_mask_module_plan = (0, 0, true, true, true, true) := by decide
 
+/-- **every** masking site found under `direct/nn` is of an accepted form: `torch.where(mask == 0, +0 of an
+explicit tensor dtype, data)`, a call of the verified `apply_mask`, or a call of a masked operator method;
+no product with a mask, no `masked_fill` (`Props/C03.wf_site_*` then apply to each of them) -/
+theorem nn_mask_sites_wf : nn_mask_sites.all Site.wf = true := by decide +kernel
+
+/-- … and every site lies in a function the oracle exercises on the real module, or in an engine training
+iteration whose sites are calls of verified functions (listed in `Mask.structuralOnly`) -/
+theorem nn_mask_sites_accounted : nn_mask_sites.all Site.accounted = true := by decide +kernel
+
+/-- no covered function has lost its masking: every function the oracle list names still contains at
+least one masking site -/
+theorem nn_mask_sites_present :
+    oracleCovered.all (fun f => nn_mask_sites.any (fun s => s.func == f)) = true := by decide +kernel
+
 end DirectVerif.Bridge.C03
